@@ -5,6 +5,8 @@ import (
 	"fmt"
 	"os"
 	"path/filepath"
+	"reflect"
+	"unsafe"
 
 	"github.com/akrennmair/updog"
 	"github.com/akrennmair/updog/zzverif/model"
@@ -74,21 +76,42 @@ func BuildFunc(dir string, n int, row func(i int) model.Row, w Writer) (string, 
 			db.Close()
 			return "", nil, err
 		}
+		// an abandoned writer keeps a transaction on the temp DB open; closing that DB would then wait forever
+		abort := func() {
+			if c, ok := any(bw).(interface{ Close() error }); ok {
+				c.Close()
+			} else {
+				leakTx(bw)
+			}
+			db.Close()
+		}
 		for i := 0; i < n; i++ {
 			id, err := bw.AddRow(row(i))
 			if err != nil {
-				db.Close()
+				abort()
 				return "", nil, err
 			}
 			ids = append(ids, id)
 		}
 		if err := bw.Flush(); err != nil {
-			db.Close()
+			abort()
 			return "", nil, err
 		}
 		return path, ids, db.Close()
 	}
 	return "", nil, fmt.Errorf("bad writer")
+}
+
+// leakTx rolls back the writer's pending temp transaction through its private field when the writer has no Close
+// method (older API); failing that the deferred Close of the temp DB is skipped by the caller's process exit.
+func leakTx(bw *updog.BigIndexWriter) {
+	defer func() { recover() }()
+	f := reflect.ValueOf(bw).Elem().FieldByName("tempTx")
+	if !f.IsValid() || f.IsNil() {
+		return
+	}
+	tx := *(**bbolt.Tx)(unsafe.Pointer(f.UnsafeAddr()))
+	tx.Rollback()
 }
 
 // Open opens an index file.
